@@ -180,6 +180,11 @@ def build(run):
         terminal_case("Coefficient", msh, lambda m: ufl.Coefficient(spaces(m)[0]), GR, "x")
         terminal_case("Coefficient[vec]", msh, lambda m: ufl.Coefficient(spaces(m)[1]), GR, "x")
         terminal_case("Coefficient[DG0]", msh, lambda m: ufl.Coefficient(spaces(m)[2]), GR, "x")
+        # elements that contain P0 without being P0 (sub-degree 0 < super-degree): not constant in space
+        terminal_case("Coefficient[sub-degree 0, vector]", msh, lambda m: ufl.Coefficient(ufl.FunctionSpace(m, E.FiniteElement(
+            "N1curl", m.ufl_cell(), 1, (m.geometric_dimension,), ufl.pullback.identity_pullback, ufl.sobolevspace.HCurl, subdegree=0))), GR, "x")
+        terminal_case("Coefficient[sub-degree 0, scalar]", msh, lambda m: ufl.Coefficient(ufl.FunctionSpace(m, E.FiniteElement(
+            "P0+bubble", m.ufl_cell(), 3, (), ufl.pullback.identity_pullback, ufl.sobolevspace.L2, subdegree=0))), GR, "x")
         terminal_case("Argument", msh, lambda m: ufl.TestFunction(spaces(m)[1]), GR, "x")
         terminal_case("Constant", msh, lambda m: ufl.Constant(m), GR, "x")
         terminal_case("Grad(f)", msh, lambda m: C.Grad(ufl.Coefficient(spaces(m)[0])), GR, "x")
@@ -234,6 +239,10 @@ def build(run):
         ("two gdims: grad(c3*x3)[i,i] * grad(c2*f)[0]", lambda: grad(c3 * x3)[i, i] * grad(c2 * f)[0]),
         ("two gdims: div(u)*div(u3)", lambda: div(u) * div(u3)), ("two gdims: div(f3*u3) + div(f*x2)", lambda: div(f3 * u3) + div(f * x)),
     ]
+
+    w_sub0 = ufl.Coefficient(ufl.FunctionSpace(tri, E.FiniteElement("RT-like", tri.ufl_cell(), 1, (2,), ufl.pullback.identity_pullback, ufl.sobolevspace.HDiv, subdegree=0)))
+    nest += [("sub-degree 0 element: div(w)", lambda: div(w_sub0)), ("sub-degree 0 element: grad(w)[0,1]*f", lambda: grad(w_sub0)[0, 1] * f),
+             ("sub-degree 0 element: curl(w)", lambda: curl(w_sub0)), ("sub-degree 0 element: (w[0]*w[1]).dx(0)", lambda: (w_sub0[0] * w_sub0[1]).dx(0))]
 
     def pipe(name, mk):
         def thunk():
